@@ -170,6 +170,25 @@ def run(rep, drv):
 		rep.case('ww-exact', cz, nontrivial=True); rep.count('ww:corpus-case')
 		nz = lambda v: [Fraction(x) for x in v] if isinstance(v, list) else [Fraction(v)] * cz['T']
 		compare(rep, 'ww-exact', cz, py, m, True, (nz(cz['h']), nz(cz['K']), nz(cz['c']), nz(cz['d'])))
+	# call histories: the answer is a function of the arguments of THIS call -- one instance solved again with exactly one argument changed
+	# (purchase cost, fixed cost, holding cost, one demand), every call compared with the model and the oracle (own stream)
+	rng_h = random.Random(rep.seed * 31 + 11)
+	for i in range(n // 20 + 4):
+		T = rng_h.randint(2, 6)
+		base = {'T': T, 'h': str(rng_h.randint(1, 3)), 'K': str(rng_h.randint(5, 60)), 'd': [str(rng_h.randint(1, 15)) for _ in range(T)], 'c': str(rng_h.randint(0, 2))}
+		calls = [dict(base)]
+		calls.append(dict(base, c=[str(3 * t % 7) for t in range(T)]))          # period-dependent purchase cost
+		calls.append(dict(base, c='0'))                                           # ... and none (the default)
+		calls.append(dict(base, K=[str(5 + 17 * t % 40) for t in range(T)]))
+		calls.append(dict(base, h=str(int(base['h']) + 2)))
+		d2 = list(base['d']); d2[-1] = str(int(d2[-1]) + 9)
+		calls.append(dict(base, d=d2))
+		calls.append(dict(base))
+		for j, cz in enumerate(calls):
+			py, m = one_case(rep, drv, cz)
+			rep.case('ww-exact', dict(cz, call=j), nontrivial=True); rep.count('ww:call-history')
+			nz = lambda v: [Fraction(x) for x in v] if isinstance(v, list) else [Fraction(v)] * T
+			compare(rep, 'ww-exact', dict(cz, history=calls[:j]), py, m, True, (nz(cz['h']), nz(cz['K']), nz(cz['c']), nz(cz['d'])))
 	for i in range(n):
 		T = rng.randint(1, Tmax) if i > 20 else rng.randint(1, 3)
 		kind = rng.choice(['int', 'quarter'])
